@@ -275,6 +275,23 @@ func runC13(c *Ctx) {
 			// the guard must really be passed only once: when it is a test of a field, that field is given its excluding value on
 			// every path that reaches the close(2) - whatever close(2) reports, the descriptor number is gone (munmap is different:
 			// a failed munmap leaves the mapping in place)
+			if strings.HasPrefix(kind, "test of ") && isCallTo(f, munmap) {
+				// munmap: the mapping is gone exactly when the call succeeded - the guard field is cleared on that edge
+				if fld := guardField(*g); fld != nil {
+					okClear := false
+					for _, a := range storesTo(fn, fld) {
+						if !isNil(a.Val) {
+							continue
+						}
+						for _, l := range guardsOf(a.Instr.Block()) {
+							if x, eq, isNT := l.nilTest(); isNT && eq && resolveCell(strip(x)) == f.(ssa.Value) {
+								okClear = true
+							}
+						}
+					}
+					c.check(okClear, fn, "guard flag on success", f.Pos(), "the mapping is forgotten exactly when munmap succeeded", "the field that guards "+cl.method+" ("+fld.Name()+") is not cleared on the success edge of munmap: a second "+cl.method+" unmaps the same address range again - by then it may belong to another mapping of the process")
+				}
+			}
 			if strings.HasPrefix(kind, "test of ") && !isCallTo(f, munmap) {
 				fld := guardField(*g)
 				if fld != nil {
